@@ -43,16 +43,18 @@ MAX_STEPS = 8000
 
 
 def cases(tier, seed):
-    n_single = 96 if tier == 'quick' else 900
-    n_core = 6 if tier == 'quick' else 60
+    n_single = 96 if tier == 'quick' else 2400
+    n_core = 6 if tier == 'quick' else 240
     out = []
     for i in range(n_single):
         out.append({'name': 'single-%d' % i, 'kind': 'single',
-                    'seed': [seed, 1, i]})
+                    'seed': [seed, 1, i],
+                    'big': bool(tier == 'thorough' and i % 10 == 0)})
     for i in range(n_core):
         out.append({'name': 'core-%d' % i, 'kind': 'core',
-                    'seed': [seed, 2, i]})
-    n_ref = 6 if tier == 'quick' else 40
+                    'seed': [seed, 2, i],
+                    'big': bool(tier == 'thorough' and i % 4 == 0)})
+    n_ref = 6 if tier == 'quick' else 120
     for i in range(n_ref):
         out.append({'name': 'refine-%d' % i, 'kind': 'refine',
                     'seed': [seed, 3, i]})
@@ -62,7 +64,8 @@ def cases(tier, seed):
 def build_problem(case):
     rng = np.random.default_rng(case['seed'])
     if case['kind'] == 'single':
-        P, feats = wl.single_assembly(rng, max_rings=8)
+        P, feats = wl.single_assembly(
+            rng, max_rings=(12 if case.get('big') else 8))
     elif case['kind'] == 'refine':
         P, feats = wl.single_assembly(rng, tdep=True, gap='none', lf=False,
                                       regions=False, max_rings=5,
@@ -70,7 +73,8 @@ def build_problem(case):
                                       n_duct=wl.choose(rng, [1, 1, 2]),
                                       vel=wl.loguniform(rng, 0.3, 6.0))
     else:
-        P, feats = wl.core_problem(rng, n_ring=2, tdep=(rng.random() < 0.3),
+        P, feats = wl.core_problem(rng, n_ring=(3 if case.get('big') else 2),
+                                   tdep=(rng.random() < 0.3),
                                    gap=wl.choose(rng, ['flow', 'flow', 'none',
                                                        'no_flow']),
                                    empty_frac=0.2)
